@@ -63,7 +63,7 @@ theorem tie_walkMount_returns : walkMountReturns =
      "cp.walkHostFS(dest, src, maxSymlinks, walkMountsBelow)",
      "fmt.Errorf(\"%q: unsupported mount %q in output (kind is %q)\", src, srcRoot, srcMount.Kind)",
      "err", "err", "err", "err",
-     "cp.walkMountsBelow(dest, src)",
+     "cp.walkMountsBelow(dest, src, maxSymlinks)",
      "nil"] := rfl
 
 /-- the path inside the collection is `Join(".", mount.Path, src[len(srcRoot):])` (`cleanRel`) and
@@ -74,14 +74,22 @@ theorem tie_walkMount_assigns : walkMountJoin =
      "cp.manifest += mft.Extract(srcRelPath, dest).Text",
      "cp.manifest += mft.Extract(srcRelPath, dest).Text"] := rfl
 
-/-- `walkMountsBelow`: proper-prefix test, `copyRegularFiles`, and the literal `0` follows -/
+/-- `walkMountsBelow` (as fixed by f009595): the caller's budget capped at `belowMaxSymlinks`
+(`min n (belowMaxSymlinks + 1)` in the model's `n = maxSymlinks + 1`), proper-prefix test,
+`copyRegularFiles`, and the capped budget handed to `walkMount` -/
 theorem tie_below_conds : walkMountsBelowConds =
-    ["if !strings.HasPrefix(mnt, src+\"/\")", "if cp.copyRegularFiles(mntinfo)", "if err != nil"] := rfl
+    ["if maxSymlinks > 0", "if !strings.HasPrefix(mnt, src+\"/\")", "if cp.copyRegularFiles(mntinfo)",
+     "if err != nil"] := rfl
 
 theorem tie_below_call : walkMountsBelowArgs =
-    ["err := cp.walkMount(dest+mnt[len(src):], mnt, 0, false)"] := rfl
+    ["maxSymlinks = 0", "err := cp.walkMount(dest+mnt[len(src):], mnt, maxSymlinks, false)"] := rfl
 
-theorem tie_below_ints : walkMountsBelowInts = [(ArvVerif.C17.belowMaxSymlinks : Int)] := rfl
+theorem tie_below_ints : walkMountsBelowInts =
+    [(ArvVerif.C17.belowMaxSymlinks : Int), (ArvVerif.C17.belowMaxSymlinks : Int)] := rfl
+
+/-- both callers hand over their own budget: `walkMount` (above, `tie_walkMount_returns`) and `walkHostFS` -/
+theorem tie_walkHostFS_below_call : walkHostFSErrAssigns.head? =
+    some "err := cp.walkMountsBelow(dest, src, maxSymlinks)" := rfl
 
 /-- `walkHostFS`: conditions in source order (`walk … (.host …)` and `(.children …)`) -/
 theorem tie_walkHostFS_conds : walkHostFSConds =
